@@ -20,6 +20,14 @@ def lef_roots(F, shorts):
     return [f.id for f in F.fns.values() if f.short in shorts and f.id.startswith("lef21::")]
 
 
+# slice bounds that move a byte offset by a literal amount, each with the reason the skipped text is single-byte
+SHIFT_AUDIT = {
+    "read::LefLexer::lex_number/((LefLexer.pos - LefLexer.start) - 1)":
+        "lex_number is entered from lex_one only with a look-ahead character that is an ASCII digit, '.' or '-' (one byte); "
+        "the slice of the text after that character ends where the consumed bytes end, i.e. in front of the current look-ahead character",
+}
+
+
 def rule_byte_offsets(ctx, rid):
     """every bound of a str slice in lef21 is a byte offset (never a character count)"""
     F = ctx.F
@@ -31,6 +39,15 @@ def rule_byte_offsets(ctx, rid):
         key = "%s/str-slice(%s)" % (f.short, ",".join(units.fmt_expr(e) for r, e, u in bounds))
         bad = [(r, e, u) for r, e, u in bounds if "CHAR" in u]
         unknown = [(r, e, u) for r, e, u in bounds if not u and e[0] not in ("const",)]
+        shifted = [(r, e, u) for r, e, u in bounds if "SHIFT" in u and "CHAR" not in u]
+        if shifted and not bad:
+            akey = "%s/%s" % (f.short, ",".join(units.fmt_expr(e) for r, e, u in shifted))
+            if akey in SHIFT_AUDIT:
+                ctx.assume("byte-offset audit %s: %s" % (akey, SHIFT_AUDIT[akey]))
+            else:
+                ctx.violation(rid, key + "/shifted", "%s slices a string at a byte offset moved by a literal amount (%s): unless the skipped characters are known to be single-byte this lands inside a multi-byte character or past the end ('not a char boundary' / 'out of bounds' panic)" % (
+                    f.short, ", ".join("%s = %s" % (r, units.fmt_expr(e)) for r, e, u in shifted)), b.site(bi), key + "/shifted")
+                continue
         if bad:
             ctx.violation(rid, key, "%s slices a string with %s, which counts characters, not bytes: text containing a multi-byte character is mis-sliced or panics ('not a char boundary')" % (
                 f.short, ", ".join("%s = %s" % (r, units.fmt_expr(e)) for r, e, u in bad)), b.site(bi), key)
